@@ -973,3 +973,71 @@ Example static_members :
   (static_ok (HMSF F_Nanosecond) && forallb (it_kind_ok false true) (HMSF F_Nanosecond) && static_time_ok (HMSF F_Nanosecond)
    && frac_class_ok 9 (HMSF F_Nanosecond)) = true.
 Proof. vm_compute. repeat split. Qed.
+
+(** * 10. over format STRINGS: whenever StrftimeItems yields an item list of the class *)
+Lemma sf_take_length : forall fuel st acc items,
+  Model.Strftime.sf_take fuel st acc = Val (Some items) -> (List.length items < fuel + List.length acc)%nat.
+Proof.
+  induction fuel as [|f IH]; intros st acc items H; cbn [Model.Strftime.sf_take] in H; [discriminate H|].
+  destruct (Model.Strftime.sf_next st) as [[o st']| |]; cbn [bind] in H; try discriminate H.
+  destruct o as [it|].
+  - pose proof (IH st' (it :: acc) items H) as Hl. cbn [List.length] in Hl. lia.
+  - injection H as <-. rewrite rev_length. lia.
+Qed.
+Definition items_of (fmt : bytes) : R (option (list Item)) :=
+  Model.Strftime.sf_take (S (Model.Strftime.sf_bound fmt)) (Model.Strftime.sf_new fmt) [].
+
+Theorem class_date_parse_from_str fmt items :
+  items_of fmt = Val (Some items) ->
+  static_ok items = true -> forallb (it_kind_ok true false) items = true -> static_date_ok items = true ->
+  forall y o d, Proofs.C08Sweeps.repr y o d ->
+  exists text,
+    Model.Format.delayed_display (Model.Format.fa_of_date d) (Model.Strftime.sf_new fmt) = Model.Format.fok text /\
+    date_parse_from_str text fmt = pok d.
+Proof.
+  intros Hi Hs Hk Hc y o d H. destruct (static_date_roundtrip items Hs Hk Hc y o d H) as (text & Hw & Hp).
+  pose proof (sf_take_length _ _ _ _ Hi) as Hl. cbn [List.length] in Hl. rewrite Nat.add_0_r in Hl.
+  destruct (sf_lift fmt items _ text Hi Hl Hw) as [Hd Hps].
+  exists text. split; [exact Hd|]. unfold date_parse_from_str. rewrite Hps. exact Hp.
+Qed.
+Theorem class_time_parse_from_str fmt items k :
+  items_of fmt = Val (Some items) ->
+  static_ok items = true -> forallb (it_kind_ok false true) items = true -> static_time_ok items = true ->
+  frac_class_ok k items = true -> k = 3 \/ k = 6 \/ k = 9 ->
+  forall t, valid_time t ->
+  exists text,
+    Model.Format.delayed_display (Model.Format.fa_of_time t) (Model.Strftime.sf_new fmt) = Model.Format.fok text /\
+    time_parse_from_str text fmt = pok (static_time_value items k t).
+Proof.
+  intros Hi Hs Hk Hc Hfc Hk3 t Hvt. destruct (static_time_roundtrip items k Hs Hk Hc Hfc Hk3 t Hvt) as (text & Hw & Hp).
+  pose proof (sf_take_length _ _ _ _ Hi) as Hl. cbn [List.length] in Hl. rewrite Nat.add_0_r in Hl.
+  destruct (sf_lift fmt items _ text Hi Hl Hw) as [Hd Hps].
+  exists text. split; [exact Hd|]. unfold time_parse_from_str. rewrite Hps. exact Hp.
+Qed.
+Theorem class_ndt_parse_from_str fmt items k :
+  items_of fmt = Val (Some items) ->
+  static_ok items = true -> forallb (it_kind_ok true true) items = true ->
+  static_date_ok items = true -> static_time_ok items = true ->
+  frac_class_ok k items = true -> k = 3 \/ k = 6 \/ k = 9 ->
+  forall y o d t, Proofs.C08Sweeps.repr y o d -> valid_time t ->
+  exists text,
+    Model.Format.delayed_display (Model.Format.fa_of_ndt (Model.DateTime.mk_ndt d t)) (Model.Strftime.sf_new fmt) = Model.Format.fok text /\
+    ndt_parse_from_str text fmt = pok (Model.DateTime.mk_ndt d (static_time_value items k t)).
+Proof.
+  intros Hi Hs Hk Hcd Hct Hfc Hk3 y o d t H Hvt.
+  destruct (static_ndt_roundtrip items k Hs Hk Hcd Hct Hfc Hk3 y o d t H Hvt) as (text & Hw & Hp).
+  pose proof (sf_take_length _ _ _ _ Hi) as Hl. cbn [List.length] in Hl. rewrite Nat.add_0_r in Hl.
+  destruct (sf_lift fmt items _ text Hi Hl Hw) as [Hd Hps].
+  exists text. split; [exact Hd|]. unfold ndt_parse_from_str. rewrite Hps. exact Hp.
+Qed.
+
+(* format strings decided by computation: "%A, %d %B %Y %I:%M:%S%.3f %p", "%d/%m/%Y %H:%M", "%D %R" is
+   outside (two-digit year) *)
+Definition fmt_ndt_class (k : Z) (fmt : bytes) : bool :=
+  match items_of fmt with Val (Some items) => ndt_static k items | _ => false end.
+Example class_format_strings :
+  fmt_ndt_class 3 [37;65;44;32;37;100;32;37;66;32;37;89;32;37;73;58;37;77;58;37;83;37;46;51;102;32;37;112] = true /\
+  fmt_ndt_class 9 [37;100;47;37;109;47;37;89;32;37;72;58;37;77] = true /\
+  fmt_ndt_class 9 [37;70;84;37;84;37;46;102] = true /\
+  fmt_ndt_class 9 [37;68;32;37;82] = false.
+Proof. vm_compute. repeat split. Qed.
